@@ -29,6 +29,14 @@ CLAIMED = {
    text="Prover, transport and both verifiers run in one process: an honest uni-STARK or batch-STARK proof is serialized to a tree, every numeric leaf and every public value is corrupted one fault at a time (five fault kinds), and the native verifier and the in-circuit verifier (fixed circuit for value leaves, circuit rebuilt from the received proof for usize leaves) must agree, over a swarm of proof shapes and FRI parameter sets.",
    note="Native p3 verifiers are the oracle. Panics count as reject here (they are C15's observable). Universes U-KB4/U-BB4, non-ZK, arity-2 MMCS.",
    technique="deterministic simulation with message-fault enumeration between prover and two verifier nodes"),
+ "C04": dict(level="fault_enumeration", ref="DESIGN §5 C04",
+   text="Byzantine prover at matrix depth through hook H2: after an honest run every cell of every active row (and one padding row) of every primitive table is altered, or an operand is altered and the row re-solved locally, or rows are swapped, or a constant is substituted and propagated; the real prover commits and proves the forged matrices and the commitment-binding verifier decides. Ground truth (operation relations over the extension field, constants, agreement of all bus participants) is computed per case; accepted and invalid is a violation. Fault-free control arm first.",
+   note="Primitive tables only (no Horner rows, no non-primitive tables: those are faulted through C06/C12). Release profile so that p3's debug constraint checks do not pre-empt the prover. Known findings (unconstrained Const values) listed in known_findings.json.",
+   technique="deterministic simulation with a byzantine prover: exhaustive single-cell faults on committed matrices, real prove + verify, computed ground truth"),
+ "C11": dict(level="fault_enumeration", ref="DESIGN §5 C11",
+   text="Table-local half of C04 at the constraint level: the same cell faults on matrices captured from the real prover are evaluated with p3's DebugConstraintBuilder against each table's AIR (no proof), and compared with an independent row-relation evaluator that multiplies in the real extension field; relation fails and constraints vanish, or an honest row fails constraints, is a violation.",
+   note="Const/Public/ALU (add, mul, bool, mul_add) tables at D=4 over BabyBear and KoalaBear with lane and Horner-K swarm; Horner rows and Poseidon/recompose tables not decoded by the oracle. BoolCheck's out = a tie is a bus matter and checked end to end in C04.",
+   technique="deterministic simulation: exhaustive cell-fault enumeration on prover matrices with a constraint-level observer and relation oracle"),
  "C05": dict(level="exploration", ref="DESIGN §5 C05",
    text="Stateful component driven through seeded operation histories and compared step by step with a small executable reference model (the native DuplexChallenger) in six configurations, recompose table on/off, seeded hash order; a failing history is minimised to a few operations.",
    note="p3_challenger::DuplexChallenger is the reference model; observed values are public inputs so the builder cannot fold them.",
